@@ -32,6 +32,8 @@ RULE = ("programs of 3-11 nodes with 1-4 effects of every kind (Effect::new, Ren
         "A 'selfwrite-direct' family has effects / watch handlers that write a signal their own body / dependency fn reads directly (or through a memo "
         "that is not pulled again afterwards), guarded so that they stop (clamp, count-up, normalise); 'selfwrite-imm' does the same with "
         "ImmediateEffects (which recurse); some effect bodies register on_cleanup callbacks that read signals ((10 j)). "
+        "In a third of the 'nested' cases the nesting is three levels deep and the effects hand a clone of Owner::current() to the outside ((11); the "
+        "harness keeps the handles until the case ends). "
         "Non-trivial = some effect ran at least twice; distinct = distinct case hash.")
 TRUSTED = [
     "Coq 8.16.1 kernel (coqc); no axioms: every theorem of Properties_C02.v is 'Closed under the global context'",
@@ -312,7 +314,10 @@ def generate(rng, tier):
     # effects creating nested effects (and memos) at run time, re-created by every run of their creator (not
     # modelled: watchdog + oracle only)
     for i in range(3000 if quick else 30000):
-        prog = X.gen_dynamic_program(rng, rng.choice([1, 1, 2]), with_effects=True)
+        # a third of the cases: three levels (depth 2 more often), effects handing out Owner::current() ((11))
+        ko = i % 3 == 2
+        prog = X.gen_dynamic_program(rng, rng.choice([1, 1, 2]), with_effects=True, depth2=0.8 if ko else 0.35,
+                                     keep_owner=0.7 if ko else 0.0, eff_kinds=(0, 0, 0, 1, 2, 3, 4) if ko else (0, 0, 1, 2, 3, 4))
         ops = X.gen_ops(rng, prog, rng.randint(6, 30), w=(0.35, 0.04, 0.12, 0.2, 0.2, 0.09))
         ops.append([4])
         if i % 2:
